@@ -331,11 +331,14 @@ def gen_edge(kind, idx):
         '9': {'results': [['none']]},                         # scheduled with inf: never
         '10': {'results': [['none']]},                        # scheduled with None: TypeError (AppClock: 0.0)
         '11': {'results': [['none']]},                        # scheduled with False == 0: runs once
+        '12': {'results': [['num', 'nan'], ['none']]},        # nan result: not re-scheduled -> 1
+        '13': {'results': [['none']]},                        # scheduled with nan: never
     }
     th = [['sched_x', 1, 'i0'], ['sched_x', 2, 'f0'], ['sched_x', 3, 'nf0'], ['sched', 4, -1, 64], ['sched', 5, 1, 64],
           ['sched', 6, 1, 64], ['sched', 7, 1, 32], ['sched', 8, 1, 32], ['sched_x', 9, 'inf'], ['sched_x', 10, 'none'],
-          ['sched_x', 11, 'false'], ['sleep', 150]]
-    counts = {'1': 2, '2': 2, '3': 2, '4': 2, '5': 1, '6': 1, '7': 1, '8': 1, '9': 0, '10': 1 if kind == 'app' else 0, '11': 1}
+          ['sched_x', 11, 'false'], ['sched', 12, 1, 64], ['sched_x', 13, 'nan'], ['sleep', 150]]
+    counts = {'1': 2, '2': 2, '3': 2, '4': 2, '5': 1, '6': 1, '7': 1, '8': 1, '9': 0, '10': 1 if kind == 'app' else 0, '11': 1,
+              '12': 1, '13': 0}
     return {'name': '%s-edge-values' % kind, 'clock': kind, 'index': idx, 'tempo': [2, 1], 'tasks': tasks, 'threads': [th],
             'final': 'clear', 'before_final': 4.0, 'after_final': 0.05, 'expect_counts': counts, 'wait_counts': counts,
             'expect_outcome': {'10': 'ok' if kind == 'app' else 'TypeError', '9': 'ok'}}
@@ -449,6 +452,29 @@ def gen_sched_during_routine(kind, where, idx):
             'final': 'clear', 'wait_counts': {'2': 1, '3': 1}, 'before_final': 4.0, 'after_final': 0.05, 'lower_bound': True}
 
 
+def gen_after_routine_failure(kind, how, idx):
+    """a Routine awakened by the clock fails in a way that goes through the time-thread stack (main.current_tt / parent
+    pointers): it resumes ITSELF, resumes another routine that raises (at its first step / after a yield), or raises in its
+    second wake-up.  Then 200 ms with no wake-up; then sched from a helper thread and the main thread, and a routine
+    scheduled afterwards must run: no scheduling call may fail, nothing is early, the global time-thread state is
+    restored."""
+    other = {'rscript': [['raise']]} if how == 'nested_raise' else {'rscript': [['yield', 1, 64], ['raise']]}
+    first = {'self_next': {'rscript': [['self_next']]},
+             'nested_raise': {'rscript': [['next', 9]]},
+             'nested_raise_after_yield': {'rscript': [['next', 9], ['yield', 1, 64], ['next', 9]]},
+             'raise_after_yield': {'rscript': [['yield', 1, 64], ['raise']]},
+             'self_next_after_yield': {'rscript': [['yield', 1, 64], ['self_next']]}}[how]
+    op = 'xsched' if kind == 'app' else 'sched'
+    n1 = 1 if how in ('self_next', 'nested_raise') else 2
+    return {'name': '%s-after-routine-%s' % (kind, how), 'clock': kind, 'index': idx, 'tempo': [1, 1],
+            'tasks': {'1': first, '2': {'results': [['none']]}, '3': {'results': [['none']]},
+                      '4': {'rscript': [['yield', 1, 64]]}, '9': other},
+            'threads': [[['sched', 1, 1, 32], ['sleep', 250], [op, 2, 1, 4], [op, 4, 1, 8]]],
+            'main_ops': [[op, 3, 1, 4]],
+            'final': 'clear', 'wait_counts': {'1': n1, '2': 1, '3': 1, '4': 2}, 'before_final': 4.0, 'after_final': 0.05,
+            'lower_bound': True, 'expect_counts': {'1': n1, '2': 1, '3': 1, '4': 2}}
+
+
 def gen_cancel_via(kind, via, idx):
     """clear() issued from a task of another clock: nothing that was pending may run after it returned"""
     return {'name': '%s-clear-from-%s' % (kind, via), 'clock': kind, 'index': idx, 'tempo': [2, 1],
@@ -484,6 +510,9 @@ def gen_stress(rng, kind, idx, heavy=False):
         tasks[str(tid)] = {'results': results, 'nested': nested}
         if rng.random() < 0.15:
             tasks[str(tid)] = {'routine': rng.randint(0, 2), 'yield': [rng.randint(0, 2), 64], 'slow': rng.choice([0, 20, 60])}
+        elif rng.random() < 0.12:
+            tasks[str(tid)] = {'rscript': rng.choice([[['self_next']], [['yield', 1, 64], ['self_next']], [['yield', 0, 64], ['raise']],
+                                                      [['yield', 1, 64], ['stop']], [['raise']]])}
     threads = []
     for _ in range(nthreads):
         ops = []
@@ -622,6 +651,11 @@ def program(ctx, rng):
     for kind, where in (('tempo', 'sys'), ('tempo', 'aux'), ('tempo', 'same'), ('sys', 'aux'), ('sys', 'same')):
         idx += 1
         p1.append(gen_sched_during_routine(kind, where, idx))
+    hows = ['self_next', 'nested_raise', 'nested_raise_after_yield', 'raise_after_yield', 'self_next_after_yield']
+    for j, kind in enumerate(('sys', 'tempo', 'app')):
+        for how in (hows if not ctx.quick else [hows[j], hows[(j + 3) % 5]]):
+            idx += 1
+            p1.append(gen_after_routine_failure(kind, how, idx))
     idx += 1
     p1.append(gen_self_stop(idx))
     idx += 1
@@ -793,6 +827,8 @@ def e2e(sc, r):
         if len(order) == len(sc['fifo']) and order != sc['fifo']:
             v.append(('ready_popped_in_time_then_fifo_order', '%s: tasks scheduled for the same time in the order %s were awakened in '
                       'the order %s' % (sc['name'], sc['fifo'], order)))
+    for what in r.get('leak') or []:
+        v.append(('exception_isolated', '%s: global state leaked after the scenario: %s' % (sc['name'], what)))
     if r.get('responsive') is False:
         v.append(('exception_isolated', '%s: the clock does not respond any more: a probe task scheduled with delay 0 after the '
                   'scenario did not run within 10 s (thread alive: %s)' % (sc['name'], r.get('alive'))))
@@ -995,6 +1031,9 @@ def search(ctx, failures):
         for _ in range(ctx.n(3, 10)):
             idx += 1
             scs.append(gen_tie_resched(rng, kind, idx))
+        for how in ('self_next', 'nested_raise_after_yield', 'self_next_after_yield'):
+            idx += 1
+            scs.append(gen_after_routine_failure(kind, how, idx))
     found, seen = [], set()
     for f in failures:
         sc = f.replay.get('scenario') if isinstance(f.replay, dict) else None
